@@ -98,6 +98,14 @@ func newRun(id, tier string) *Run {
 	return r
 }
 
+// inShard spreads case numbers over shards by a multiplicative hash, so that a shard is not aligned with the period of an alphabet or a table
+func inShard(i, nsh, shard int) bool {
+	if nsh <= 1 {
+		return true
+	}
+	return int((uint32(i)*2654435761)>>13)%nsh == shard
+}
+
 func (r *Run) Thorough() bool { return r.Tier == "thorough" }
 
 // Pick returns q in the quick tier and t in the thorough tier.
